@@ -153,7 +153,11 @@ Fixpoint rrank (e : rexp) : option nat :=
                   | KSqueeze => Some (if Nat.eqb (rlen v) 1 then O else Nat.min r 1)   (* every axis of size 1 goes *)
                   | KSqueezeNoAxes0 => Some r
                   | KReshapeFlat => Some 1%nat
-                  | KReshape0 => match r with O => None | _ => Some 1%nat end           (* 0 copies input dim 0 *)
+                  | KReshape0 => match r with                                           (* 0 copies input dim 0 *)
+                                 | O => None
+                                 | S O => Some 1%nat
+                                 | _ => if Nat.eqb (rlen v) 1 then Some 1%nat else None  (* [1, n] -> [1] needs n = 1 *)
+                                 end
                   | KReshapeScalar => if Nat.eqb (rlen v) 1 then Some O else None       (* Reshape(v, []) *)
                   end
       end
